@@ -223,8 +223,8 @@ class Minimiser:
             # found by a matrix plan or by asking the other configurations after a double reject:
             # name the two configurations that disagree explicitly
             def explicit_pair(c):
-                comp, std = self.hint["toolchain_b"].split("/")
-                c["toolchain"] = {"a": c["toolchain"]["a"], "b": [comp, std], "b_variant": self.hint.get("b_variant", "multi")}
+                parts = self.hint["toolchain_b"].split("/")
+                c["toolchain"] = {"a": c["toolchain"]["a"], "b": parts, "b_variant": self.hint.get("b_variant", "multi")}
             case = self.try_one(case, "explicit toolchain pair", explicit_pair)
         if self.vclass != "TOOLCHAIN_DEPENDENT" and "b" in case["toolchain"]:
             def drop_b(c):
